@@ -25,7 +25,8 @@ ASSUMPTIONS = [
 REQUIRED_LABELS = {t: ["kind:ast", "kind:pair", "kind:malformed", "mal:truncate", "mal:trailing",
                        "mal:empty-script", "mal:truncated-push", "non-minimal-push",
                        "last-op:opcode", "last-op:push", "inputs>=2", "bip144", "link:fresh",
-                       "link:repair-pending", "sighash:legacy", "sighash:segwit"]
+                       "link:repair-pending", "link:after-a-valid-sign", "sighash:legacy",
+                       "sighash:segwit"]
                    for t in ("quick", "thorough")}
 
 
@@ -47,7 +48,8 @@ def cases(draw, tier):
     c = {"kind": "malformed", "tx": tx, "mal": m,
          # the refusal is the same whatever state the link is in: fresh, or with a repair pending
          # after a failed exchange of an earlier request
-         "link": draw(st.sampled_from(["fresh", "fresh", "repair-pending"])),
+         "link": draw(st.sampled_from(["fresh", "repair-pending", "after-a-valid-sign",
+                                       "after-a-valid-sign"])),
          "mode": draw(st.sampled_from(["legacy", "segwit"]))}
     raw = refs.tx_bytes(tx)
     if m == "truncate":
@@ -112,12 +114,25 @@ def through_protocol(raw_hex, link="fresh", mode="legacy"):
         r0 = mw.request(p, mw.nominal_requests()["getPubKey"])
         if r0 != {"errorcode": -905}:
             raise HarnessError("link failure did not give -905: %r" % (r0,))
-    mark = len(w.log)
     req = copy.deepcopy(mw.nominal_requests()["sign_auth" if mode == "legacy"
                                               else "sign_segwit"])
+    if link == "after-a-valid-sign":
+        # the manager has just signed for a decodable transaction (whatever it may remember
+        # of it must not make the next, undecodable one pass)
+        r0 = mw.request(p, copy.deepcopy(req))
+        if r0.get("errorcode") != 0:
+            raise HarnessError("nominal sign failed: %r" % (r0,))
     req["message"]["tx"] = raw_hex
-    rep = mw.request(p, req)
-    return rep, [e for e in w.log[mark:] if e[0] in ("apdu", "connect", "connect_fail", "close")]
+    reps, contact = [], []
+    for _ in range(2):
+        # the very same refused request once more: refused again, for the same reason
+        mark = len(w.log)
+        reps.append(mw.request(p, copy.deepcopy(req)))
+        contact += [e for e in w.log[mark:]
+                    if e[0] in ("apdu", "connect", "connect_fail", "close")]
+    if reps[0] == {"errorcode": -102} and reps[1] != reps[0]:
+        return {"errorcode": "first -102, then %r" % (reps[1],)}, contact
+    return reps[0], contact
 
 
 def run_case(c):
